@@ -1240,7 +1240,7 @@ class Repr(EnvironmentFilter):
 
             if actions_changed:
                 for target in reward_targets:
-                    if isinstance(old[target],BinaryReward):
+                    if isinstance(old[target],BinaryReward) and old[target]._argmax in old['actions']:
                         new_argmax = new['actions'][old['actions'].index(old[target]._argmax)]
                         new[target] = BinaryReward(new_argmax,old[target]._value)
                     elif isinstance(old[target],DiscreteReward) and old[target].actions == old['actions']:
